@@ -322,20 +322,21 @@ def atomgrid_public_points(chk):
 def selection(chk):
     eng = chk.eng
     k = z3.Int("k")
+    kk = z3.If(k >= 0, k, k + N)          # the selected parent index
     for mod, cname, extra_fields in (("grid.basegrid", "Grid", {}), ("grid.basegrid", "OneDGrid", {"_domain": (z3.Real("d0"), z3.Real("d1"))}),
                                      ("grid.periodicgrid", "PeriodicGrid", {})):
         cls = eng.get_class(mod, cname)
         fq = f"{mod}.{cname}.__getitem__"
         for kind in ("python-int", "numpy-int", "slice"):
             def thunk(eng_, kind=kind, cname=cname):
-                eng_.assume(z3.And(N >= 3, k >= 0, k < N))
+                eng_.assume(z3.And(N >= 3, k >= -N, k < N))         # negative integers count from the end, as everywhere in Python/NumPy
                 g = I.Obj(cls)
                 if cname == "OneDGrid":
                     g.fields.update(_points=I.Arr((N,), lambda i: P(T.zi(i), 0), "real"), _weights=wts_arr(), _kdtree=None, **extra_fields)
                     eng_.assume(z3.And(extra_fields["_domain"][0] <= extra_fields["_domain"][1]))
                     j = z3.Int("j")
-                    eng_.generic_indices = [k, z3.IntVal(0), z3.IntVal(1)]
-                    for idx in (k, z3.IntVal(1), z3.IntVal(2)):
+                    eng_.generic_indices = [kk, z3.IntVal(0), z3.IntVal(1)]
+                    for idx in (kk, z3.IntVal(1), z3.IntVal(2)):
                         eng_.add_axiom(z3.And(P(idx, 0) >= extra_fields["_domain"][0], P(idx, 0) <= extra_fields["_domain"][1]))
                 else:
                     g.fields.update(_points=pts_arr(P), _weights=wts_arr(), _kdtree=None)
@@ -357,8 +358,8 @@ def selection(chk):
                 if kind == "slice":
                     val_ok = z3.And(T.zi(pts.shape[0]) == 2, T.zr(wts.fn(1)) == Wt(2), T.zr(pts.fn(1) if cname == "OneDGrid" else pts.fn(1, 2)) == (P(2, 0) if cname == "OneDGrid" else P(2, 2)))
                 else:
-                    val_ok = z3.And(T.zi(pts.shape[0]) == 1, T.zi(wts.shape[0]) == 1, T.zr(wts.fn(0)) == Wt(k),
-                                    T.zr(pts.fn(0) if cname == "OneDGrid" else pts.fn(0, 1)) == (P(k, 0) if cname == "OneDGrid" else P(k, 1)),
+                    val_ok = z3.And(T.zi(pts.shape[0]) == 1, T.zi(wts.shape[0]) == 1, T.zr(wts.fn(0)) == Wt(kk),
+                                    T.zr(pts.fn(0) if cname == "OneDGrid" else pts.fn(0, 1)) == (P(kk, 0) if cname == "OneDGrid" else P(kk, 1)),
                                     z3.BoolVal(len(pts.shape) == (1 if cname == "OneDGrid" else 2)))
                 chk.add(f"{cname}.__getitem__/{kind}/post/selected-points-and-weights{sfx}", hy, val_ok, func=fq, assumptions=list(o.assumptions), meta={"replay": rep})
                 if cname == "OneDGrid":
